@@ -51,7 +51,7 @@ def oracle(line, impl_line):
     """Closed-form statement of C15 applied to the implementation's observation."""
     mode, a = parse_case(line)
     o = parse_out(impl_line)
-    if o is None or o == [[888888]]:
+    if o is None or o == [[18446744073710440504]]:
         return "implementation crashed or panicked"
     if mode == "vi_write":
         v = a[0][0]
